@@ -3,6 +3,7 @@
 //	C10  direct calls of (*stakepool.StakePool).DistributeRewards / DistributeRewardsRandN
 //	C11  stake lock / unlock / collect transactions on minersc, storagesc, zcnsc
 //	C23  kill_* / shutdown_* transactions with a projection of every stake-pool node
+//	C22  minersc payFees inside real blocks (DESIGN.md §5 Family E, MinerFees.tla)
 //
 // One vdriver family ("stake"); the property id selects the scenario generator.
 package stake
@@ -23,6 +24,8 @@ func Run(a common.Args) {
 		runC11(a)
 	case "C23":
 		runC23(a)
+	case "C22":
+		runC22(a)
 	default:
 		rec.Fatal("stake driver: unknown property %q", a.Prop)
 	}
